@@ -284,12 +284,16 @@ func (c *c18) refResource() {
 }
 
 type c18closer struct {
-	c  *c18
-	id int
+	c    *c18
+	id   int
+	fail bool // Close reports an error: the manager must still close all the others
 }
 
 func (x *c18closer) Close() error {
 	x.c.ev(kit.M{"e": "closed", "p": 0, "r": x.id})
+	if x.fail {
+		return errors.New("close failed")
+	}
 	return nil
 }
 
@@ -310,7 +314,7 @@ func (c *c18) resourceManager() {
 				}
 				id := c.uniq()
 				c.ev(kit.M{"e": "create", "p": p, "k": k, "r": id})
-				return &c18closer{c: c, id: id}, nil
+				return &c18closer{c: c, id: id, fail: r.Intn(3) == 0}, nil
 			})
 			id := 0
 			if err == nil {
